@@ -26,10 +26,13 @@ def base_values(version, seed=0):
     return out
 
 
-def make(version=1, grid=1, seed=0):
+FREQS = {1: FREQ, 2: np.array([0.04, 0.07, 0.1, 0.14, 0.19, 0.25, 0.36])}      # second frequency grid for in-place edits of 'freq'
+
+
+def make(version=1, grid=1, seed=0, fgrid=1):
     import xarray as xr
     vals = base_values(version, seed)
-    da = xr.DataArray(vals, coords={"time": np.arange(NLEAD), "freq": FREQ, "dir": GRIDS[grid].copy()},
+    da = xr.DataArray(vals, coords={"time": np.arange(NLEAD), "freq": FREQS[fgrid].copy(), "dir": GRIDS[grid].copy()},
                       dims=("time", "freq", "dir"), name="efth")
     return da
 
